@@ -271,7 +271,10 @@ class TypedNode(Node):
             for n in topnodes:
                 if n._data_id in own_ids:
                     raise UniqueConstraintError(f"Node.data already exists in parent: {n}")
-            if isinstance(before, (int, TypedNode)) or before is True:
+            if isinstance(before, int):  # (includes `True`)
+                # Every node is inserted at the same index, so add the last one first.
+                # (With `before=<node>` each node lands directly before that node, i.e.
+                # behind the previous one.)
                 topnodes.reverse()
             for n in topnodes:
                 self.add_child(n, kind=n.kind, before=before, deep=deep)
